@@ -75,6 +75,11 @@ def generate(rng, tier, idx):
             mounts[rng.choice(dirs)] = 2002
     if rng.random() < 0.15 and manifests:
         mounts[rng.choice(manifests)['p']] = 2003
+    link_manifests = []
+    if rng.random() < 0.2 and manifests:
+        # a Manifest that is a symlink to a file kept on another filesystem
+        link_manifests = [rng.choice(manifests)['p']]
+        mounts['.xfs'] = 2004
     ops = []
     for _ in range(rng.randrange(2, 6)):
         ops.append({'start': rng.choice(levels), 'allow_compressed': rng.random() < 0.5,
@@ -83,7 +88,7 @@ def generate(rng, tier, idx):
             # the start path spelled relative to a working directory somewhere on the chain ('.', '..', 'a/b', '../c')
             ops[-1]['cwd'] = rng.choice(levels)
     return {'prop': ID, 'order_key': '%016x' % rng.getrandbits(64), 'tree': tree,
-            'manifests': manifests, 'mounts': mounts, 'ops': ops}
+            'manifests': manifests, 'mounts': mounts, 'ops': ops, 'link_manifests': link_manifests}
 
 
 def execute(sc):
@@ -97,6 +102,13 @@ def execute(sc):
             w.put(spec, root=base)
         for m in sc.get('manifests', []):
             w.write_manifest(m, root=base)
+        for k_, lp in enumerate(sc.get('link_manifests', [])):
+            src = os.path.join(base, lp)
+            if os.path.isfile(src) and not os.path.islink(src):
+                os.makedirs(os.path.join(base, '.xfs'), exist_ok=True)
+                dst = os.path.join(base, '.xfs', 'm%d-%s' % (k_, os.path.basename(lp)))
+                os.rename(src, dst)
+                os.symlink(os.path.relpath(dst, os.path.dirname(src)), src)
         mounts = dict(sc.get('mounts', {}))
         seam = Seam(base, order_key=sc['order_key'], mounts=mounts, default_dev=1001, virtual_root=True)
         snap0 = w.snapshot(root=base)
